@@ -51,7 +51,7 @@ CAMPAIGNS = {
         "filter_after_history",
         quick=[ex(ph(HIST), ph(["filter_ids"], True, "r", 6)),
                ex(ph(REORDER), ph(["filter_pred"], True, "r", 16)),
-               ex(ph(HIST), ph(HIST, pick=4), ph(["filter"], True, "r", 3))],
+               ex(ph(HIST, pick=10), ph(HIST, pick=3), ph(["filter"], True, "r", 3))],
         thorough=[ex(ph(HIST), ph(["filter"], True, "r")),
                   ex(ph(HIST, True, pick=40), ph(HIST, pick=6), ph(["filter"], True, "r", 12)),
                   ex(ph(HIST), ph(HIST, pick=6), ph(HIST, pick=3), ph(["filter"], True, "r", 6))]),
@@ -143,7 +143,43 @@ CAMPAIGNS.update({
 })
 
 
+CNTP = [[i, "plain"] for i in ("plain", "unicode", "case_ids", "numeric_ids")]
+CAMPAIGNS.update({
+    "merge_pairs": model_campaign(
+        "merge_pairs", palettes=SUMP, heaps="mrg",
+        quick=[ex(ph(["merge"], True, "r")),
+               ex(ph(LAYOUT, pick=6), ph(["merge"], True, "r", 8)),
+               ex(ph(LAYOUT, False, "same", 4, "b"), ph(["merge"], True, "r", 8))],
+        thorough=[ex(ph(LAYOUT), ph(["merge"], True, "r")),
+                  ex(ph(LAYOUT, False, "same", 0, "b"), ph(["merge"], True, "r")),
+                  ex(ph(LAYOUT, pick=8), ph(LAYOUT, False, "same", 4, "b"), ph(["merge"], True, "r"))]),
+    "concat_blocks": model_campaign(
+        "concat_blocks", palettes=SUMP, heaps="cat",
+        quick=[ex(ph(["concat"], True, "r")),
+               ex(ph(LAYOUT, pick=6), ph(["concat"], True, "r", 8)),
+               ex(ph(LAYOUT, False, "same", 4, "b"), ph(["concat"], True, "r", 8))],
+        thorough=[ex(ph(LAYOUT), ph(["concat"], True, "r")),
+                  ex(ph(LAYOUT, False, "same", 0, "b"), ph(["concat"], True, "r")),
+                  ex(ph(LAYOUT, pick=8), ph(LAYOUT, False, "same", 4, "b"), ph(["concat"], True, "r"))]),
+    "partition_collapse": model_campaign(
+        "partition_collapse", palettes=SUMP, heaps="stdcnt",
+        quick=[ex(ph(["partition", "collapse"], True, "r")),
+               ex(ph(LAYOUT, pick=6), ph(["partition", "collapse"], True, "r", 12))],
+        thorough=[ex(ph(LAYOUT), ph(["partition", "collapse"], True, "r")),
+                  ex(ph(LAYOUT, pick=10), ph(LAYOUT, pick=4), ph(["partition", "collapse"], True, "r", 20))]),
+    "subsample_counts": model_campaign(
+        "subsample_counts", palettes=CNTP, heaps="cnt",
+        quick=[ex(ph(["subsample"], True, "r")),
+               ex(ph(LAYOUT, pick=8), ph(["subsample"], True, "r", 16))],
+        thorough=[ex(ph(LAYOUT), ph(["subsample"], True, "r")),
+                  ex(ph(LAYOUT, pick=10), ph(LAYOUT, pick=4), ph(["subsample"], True, "r", 30))]),
+})
+
 PROPERTIES = {
+    "C09": {"level": "model_checking", "campaigns": [CAMPAIGNS["merge_pairs"]], "assumptions": []},
+    "C10": {"level": "model_checking", "campaigns": [CAMPAIGNS["concat_blocks"]], "assumptions": []},
+    "C11": {"level": "model_checking", "campaigns": [CAMPAIGNS["partition_collapse"]], "assumptions": []},
+    "C12": {"level": "model_checking", "campaigns": [CAMPAIGNS["subsample_counts"]], "assumptions": []},
     "C05": {
         "level": "model_checking",
         "campaigns": [CAMPAIGNS["coherence_walks"], CAMPAIGNS["reads_full"]],
